@@ -407,6 +407,32 @@ def wrapper_discipline(C, R, cfg, state_adts, rule):
             if callers and all(c in state_fn_adt for c in callers):
                 state_fn_adt[fn['path']] = state_fn_adt[callers[0]]
                 changed = True
+    # one lock acquisition per public operation: a decision taken under one acquisition and acted upon under the
+    # next is a check-then-act race for every other task (whether or not the first acquisition mutates anything)
+    mods = set(sp.rsplit('::', 1)[0] + '::' for sp in state_adts)
+    double_lock = []
+    for fn in F.raw['fns']:
+        if fn['kind'] == 'closure' or not any(fn['path'].lstrip('<').startswith(m_) for m_ in mods):
+            continue
+        for path in E.run(fn['path']):
+            if path.exit != 'return':
+                continue
+            cnt = {}
+            for e in path.events:
+                if e['k'] == 'lock':
+                    cnt[e['mutex']] = cnt.get(e['mutex'], 0) + 1
+            twice = [mx for mx, c in cnt.items() if c >= 2]
+            if not twice:
+                continue
+            if any(fn.get('impl_adt') == adt_ and (fn.get('impl_trait') or '').endswith('ops::Drop')
+                   for (adt_, _combo) in ALLOWED_COMBOS):
+                R.ok(rule, '%s|locks twice: the documented close-then-discard of the last receiver' % fn['path'])
+            else:
+                # two MUTATING acquisitions are reported below (wrapper-not-thin); a read-only first acquisition may be
+                # harmless (re-validated under the second) or a check-then-act race - the per-transition rules cannot
+                # tell, so the verdict is "not judged", never "fine"
+                double_lock.append('%s (%d acquisitions of the same lock on one path)' % (fn['path'], cnt[twice[0]]))
+            break
     for fn in F.raw['fns']:
         if fn['path'] in state_fn_adt or fn['kind'] == 'closure':
             continue
@@ -459,6 +485,11 @@ def wrapper_discipline(C, R, cfg, state_adts, rule):
                            fn['path'], _fv(a), c['callee']), where(F, c), {'trace': trace_summary(path)})
             else:
                 R.ok(rule, '%s|one transition per lock, arguments unchanged|%s' % (fn['path'], pc))
+    reported = set(v['key'].split('|')[1] for v in R.violations if v['key'].startswith(rule + '|') and 'wrapper-not-thin' in v['key'])
+    pending = [d for d in double_lock if d.split(' (')[0] not in reported]
+    if pending:
+        R.cannot_judge('%s - an operation that spans two critical sections is outside what the per-transition rules '
+                       'decide' % '; '.join(pending))
     return n
 
 
